@@ -115,6 +115,29 @@ func checkC09(prop, tier string, seed int64) int {
 	os.Unsetenv("VERIF_SCEN")
 	rep.HarnessErr = append(rep.HarnessErr, e...)
 	wcases = append(wcases, sc...)
+	// sequences: a first Flatten succeeds, the auxiliary documents disappear, a second Flatten of the same root must fail
+	nVanish := 12
+	if tier == "thorough" {
+		nVanish = 120
+	}
+	for i, c := range sc {
+		if nVanish == 0 {
+			break
+		}
+		if c.Bundle == nil || c.Bundle.Feat.NAux == 0 || c.Bundle.Feat.WPlus || !strings.Contains(",aux1,aux2,aux3,trans,selfrec,mutual,diamond,recdep,", ","+strings.SplitN(c.Note, ",", 2)[0]+",") {
+			continue
+		}
+		cv := *c
+		cv.Tid = c.Tid + "v"
+		if err := cv.Materialize(filepath.Join(scratch, "cases", cv.Tid)); err != nil {
+			continue
+		}
+		o := modes[i%3]
+		args := flattenArgs{Opts: o, Light: true, Vanish: true}
+		runs = append(runs, &c09Run{c: &cv, op: "flatten", args: args,
+			rec: faultRec{Tid: fmt.Sprintf("r%d", len(runs)), What: "flatten." + o.String(), Kind: "W:vanish:" + c.Note, Unresolvable: true}})
+		nVanish--
+	}
 	cleanIdx := map[string]int{}
 	for i, c := range wcases {
 		o := modes[i%3]
